@@ -33,6 +33,12 @@ def _consumer(eng, case, front):
     life = eng.int('life', 1, 10000)
     tD = eng.int('tD', 0, 20000)
     dV = eng.int('dV', 0, 20000)
+    dA = None
+    if case.get('defer'):
+        # the result is fetched dA ms after express(), still inside the lifetime (later fetches get the documented
+        # 100 ms grace: outside the claim)
+        dA = eng.int('dA', 0, 20000)
+        eng.assume(dA < life)
     data = bytes(enc.make_data('/a', enc.MetaInfo(), b'payload'))
     VR = list(types.ValidResult)
     log = []
@@ -56,7 +62,11 @@ def _consumer(eng, case, front):
     async def consumer():
         try:
             if front == 'v2':
-                n, content, ctx = await app.express('/a', validator, lifetime=life, nonce=7)
+                # express() sends at once and returns the coroutine that fetches the result: it may be awaited later
+                coro = app.express('/a', validator, lifetime=life, nonce=7)
+                if dA is not None:
+                    await vloop.sleep_until(asyncio.get_running_loop(), asyncio.get_running_loop().at_ms(dA))
+                n, content, ctx = await coro
             else:
                 n, meta, content = await app.express_interest('/a', validator=v1_validator, lifetime=life, nonce=7)
             out['r'] = ('data', bytes(content), enc.Name.to_str(n))
@@ -293,7 +303,7 @@ HARNESSES = {'cons_v2': h_cons_v2, 'cons_v1': h_cons_v1, 'prod_v2': h_prod_v2, '
 
 
 def cases(tier, seed):
-    cs = [('cons_v2', {}, {'weight': 20}), ('cons_v1', {}, {'weight': 20})]
+    cs = [('cons_v2', {}, {'weight': 20}), ('cons_v1', {}, {'weight': 20}), ('cons_v2', {'defer': True}, {'weight': 40})]
     quick = tier == 'quick'
     for front in ('prod_v2', 'prod_v1'):
         for variant in ('plain', 'params', 'signed'):
